@@ -564,7 +564,7 @@ class ToRfi(Contract):
             return {'at': None if mval(model, ov['oat_none'](kz)) else [mval(model, ov['oat0'](kz)), mval(model, ov['oat1'](kz))],
                     'ag': None if mval(model, ov['oag_none'](kz)) else mval(model, ov['oag'](kz)),
                     'r': None if mval(model, ov['or_none'](kz)) else mval(model, ov['ores'](kz))}
-        w.update({'channels': ch, 'ov_form': form, 'entries': [ent(k) for k in range(max(n, 1))] if form != 'none' else None,
+        w.update({'channels': ch, 'ov_form': form, 'entries': [ent(k) for k in range(n if f in ('intlist', 'strlist', 'none') else 1)] if form != 'none' else None,
                   'which': aux.get('which_bad')})
         return w
 
